@@ -62,9 +62,16 @@ def cases(draw, ctx):
         kind = draw(st.sampled_from(["ult", "ult", "task"]))
         named = draw(st.booleans())
         ops = own_ops(draw(st.integers(1, 14)), kind == "ult")
-        units.append("unit %d type=%s named=%d pool=%d : %s" %
-                     (u, kind, int(named), draw(st.integers(0, npools - 1)), "; ".join(ops) or "nop"))
+        # owners that also carry the library's own per-unit entries (migration data, created
+        # by a callback in the attribute or by ABT_thread_set_callback): user keys and
+        # internal keys share one table and must never alias
+        cb = draw(st.sampled_from([0, 0, 1, 2])) if kind == "ult" else 0
+        units.append("unit %d type=%s named=%d pool=%d cb=%d : %s" %
+                     (u, kind, int(named), draw(st.integers(0, npools - 1)), 1 if cb == 1 else 0,
+                      "; ".join(ops) or "nop"))
         main_ops.append("create %d" % u)
+        if cb == 2 and named:
+            main_ops.append("setcb %d" % u)
         if named:
             remote_targets.append(u)
     # remote access by the primary ULT and by helper units
@@ -112,6 +119,8 @@ def classify(text, res, ctx):
     for k in ("key_remote_sets", "key_dtor_calls", "revives"):
         if stat(res, k):
             out.append(k)
+    if "cb=1" in text or "setcb" in text:
+        out.append("owner_with_migration_data")
     import re
     m = re.search(r"note tsize=(\d+) nkey=(\d+)", text)
     if m and int(m.group(2)) > int(m.group(1)):
